@@ -111,6 +111,27 @@ def run_correct(case, ctx):
     if not wa:
         ctx.check(np.all(T_out[2] == 0.0) and np.all(T_out[5] == 0.0), 'vertical_rows_not_zero',
                   lambda: f'down row {T_out[2]} VD row {T_out[5]}')
+    # stacked (DataFrame) form == single (Series) form, row by row, incl. the exact zeros of the 2D mode
+    p2 = pva.copy()
+    p2[EC.VEL] = pva[EC.VEL].values.astype(float) * 0.37 + np.array([1.25, -2.75, 0.0 if not wa else 0.5])
+    p2['heading'] = ((pva.heading + 123.4 + 180) % 360) - 180
+    frame = pd.DataFrame([pva, p2, pva], index=[3.0, 4.0, 5.0])
+    Ts = ctx.sut(em.transform_to_output, frame)
+    ctx.check(Ts.shape == (3, 9, n), 'shape_stacked', str(Ts.shape))
+    for k, row in enumerate((pva, p2, pva)):
+        Tk = em.transform_to_output(row)
+        dk = np.abs(Ts[k] - Tk).max()
+        ctx.check(dk <= 4 * EPS * (1 + np.abs(Tk).max()), 'stacked_form_differs_from_single',
+                  lambda: f'row {k}: transform_to_output(DataFrame) differs from transform_to_output(Series) by {dk:.3e}\n{Ts[k]}\n{Tk}')
+    if not wa:
+        ctx.check(np.all(Ts[:, 2, :] == 0.0) and np.all(Ts[:, 5, :] == 0.0), 'vertical_rows_not_zero:stacked',
+                  lambda: f'VD rows {Ts[:, 5, :]}')
+    Fs = ctx.sut(em.system_matrices, frame)
+    for k, row in enumerate((pva, p2, pva)):
+        Fk = em.system_matrices(row)
+        for a, b, nm in zip(Fs, Fk, ('F', 'B_gyro', 'B_accel')):
+            dk = np.abs(a[k] - b).max()
+            ctx.check(dk <= 8 * EPS * (1 + np.abs(b).max()), f'system_matrices_stacked_differs:{nm}', lambda: f'row {k}: {dk:.3e}')
     x_unit = T_int @ d_out
     res_own, res_lib = [], []
     Rr = 6.4e6
